@@ -41,7 +41,7 @@ def make_prism(inst):
     """a real PRISM object whose System carries the instance's densities, diameters and kT"""
     import pyPRISM
     r = len(inst['rho'])
-    T = ['t%d' % i for i in range(r)]
+    T = ['z0', 't1', 'a2', 'm3'][:r]          # not in alphabetical order
     s = pyPRISM.System(T, kT=q(inst['kT']))
     s.domain = pyPRISM.Domain(length=L, dr=DR)
     for i, t in enumerate(T):
